@@ -125,7 +125,8 @@ Record obs := mkObs {
   ob_events : option (list pevent);     (* events the real handler delivered *)
   ob_parse : pobs;
   ob_wev : option (list wevent);        (* EventGenerator output *)
-  ob_outs : list (option itree)         (* re-parsed output of each writer *)
+  ob_outs : list (option itree);        (* re-parsed output of each writer *)
+  ob_outs_ns : list (option itree)      (* the same under user supplied prefix maps (default and/or prefixed bindings) *)
 }.
 Definition case : Type := itree * list obs.
 
@@ -263,6 +264,17 @@ Definition g_names_node (m : nsmap) (t : itree) : bool :=
 
 Definition bit (b : bool) (n : N) : N := if b then n else 0.
 
+(* A user supplied prefix map changes only prefix choices, which `canon` erases, unless the
+   stream carries a QName-valued attribute whose lexical form depends on the bindings in scope:
+   an xsi:type given as a string (unprefixed / Clark form in a user-bound namespace).  XSD
+   datatype QNames are safe: the user maps of the check never bind the XSD namespace. *)
+Definition wev_prefix_free (e : list wevent) : bool :=
+  forallb (fun ev => match ev with
+                     | WAttr k (AVStr _) => negb (str_eqb k xsi_type_q)
+                     | WAttr k (AVQName c) => is_datatype_clark c
+                     | _ => true
+                     end) e.
+
 (* code bits:
      1 handler events differ from the pump      2 parse result differs from the model
      4 writer events differ from the model      8 written infoset differs from the model
@@ -271,7 +283,8 @@ Definition bit (b : bool) (n : N) : N := if b then n else 0.
    guard clauses that do not hold of this input (they classify an oracle failure):
     64 visible  128 nil  256 rewrite  512 dtclark  1024 xsitype  2048 space
   4096 first-level xsi:type datatype (holder placements)   8192 ill-formed names (harness bug)
- 16384 typed child with a tail in a non-mixed holder   32768 tail of a single-wildcard holder written inside it *)
+ 16384 typed child with a tail in a non-mixed holder   32768 tail of a single-wildcard holder written inside it
+ 65536 written infoset under a user supplied prefix map differs from the model (ill-formed output included) *)
 Definition judge_obs (t : itree) (ob : obs) : N :=
   let o := oracle_of (ob_vtext ob) (ob_vtail ob) in
   let evs := pump o [] [] t in
@@ -296,6 +309,11 @@ Definition judge_obs (t : itree) (ob : obs) : N :=
                                                end) (ob_outs ob))
                  | None => false
                  end in
+  let c_write_ns := match ob_wev ob with
+                    | Some e => wev_prefix_free e &&
+                        negb (forallb (fun out => opt_eqb itree_eqb mw (option_map (canon []) out)) (ob_outs_ns ob))
+                    | None => false
+                    end in
   let app := applicable (ob_pl ob) t in
   let want := expected (ob_pl ob) t in
   (* the exception is a permission, not a duty: the output is normalised too *)
@@ -321,7 +339,8 @@ Definition judge_obs (t : itree) (ob : obs) : N :=
   + bit (match ob_pl ob with Some p => negb (g_first_level_reg (pl_reg p) [] t) | None => false end) 4096
   + bit (negb (tree_all g_names_node [] t)) 8192
   + bit (match ob_pl ob with Some p => negb (g_typed_tail (pl_reg p) (pl_cfg p) t) | None => false end) 16384
-  + bit (match ob_pl ob with Some p => negb (g_single_tail (pl_reg p) (pl_cfg p) t) | None => false end) 32768.
+  + bit (match ob_pl ob with Some p => negb (g_single_tail (pl_reg p) (pl_cfg p) t) | None => false end) 32768
+  + bit c_write_ns 65536.
 
 Fixpoint judge_list (t : itree) (i : N) (l : list obs) : list (N * N) :=
   match l with
